@@ -121,7 +121,7 @@ def gen_case(rng, structured=None):
     case['v_out'] = [rng.randrange(-3, 4) for _ in range(nout)]
     case['v_in'] = [rng.randrange(-3, 4) for _ in range(nin)]
     case['w'] = [rng.randrange(-3, 4) for _ in range(nout)]
-    case['r0'] = [rng.randrange(-2, 3) for _ in range(nout)]
+    case['r0'] = [0] * nout      # _matvec_context zeroes the result vectors before the product
     k = rng.random()
     if k < 0.3:
         case['mask'] = {'t': 'none', 'pos': []}
@@ -299,20 +299,35 @@ class C11(Spec):
         L = Layout(case)
         parts = []
         binds = []
+        cs = '[%s]' % '; '.join(boollit(up['cs']) for up in case['updates'])
+        keysof = {}
         for which, nc in (('drdo', L.nout), ('drdi', L.nin)):
-            keys = [tuple(k) for k in aux[which]]
-            if not keys and not aux['has_' + which]:
+            keys = keysof[which] = [tuple(k) for k in aux[which]]
+            binds.append(('sj_' + which, '[%s]' % '; '.join(L.subjac(k, which) for k in keys)))
+            if not aux['has_' + which]:
                 parts.append('VN')
                 continue
-            binds.append(('sj_' + which, '[%s]' % '; '.join(L.subjac(k, which) for k in keys)))
             vec = case['v_out'] if which == 'drdo' else case['v_in']
             mask = case['mask']['pos'] if which == 'drdi' else []
             ups = []
             for part in (0, 1):
                 ups.append('[%s]' % '; '.join(
                     '[%s]' % '; '.join(qd(L.vals(k, up, part)) for k in keys) for up in case['updates']))
-            parts.append('(obs_matrix sj_%s %s %s %d %d %s %s (nl %s))' % (
-                which, ups[0], ups[1], L.nout, nc, qd(vec), qd(case['w']), zl(mask)))
+            parts.append('(obs_matrix %s sj_%s %s %s %s %d %d %s %s (nl %s))' % (
+                boollit(which == 'drdo'), which, cs, ups[0], ups[1], L.nout, nc, qd(vec), qd(case['w']), zl(mask)))
+        # run_apply_linear on the assembled jacobians (every real-valued update)
+        din0 = [0] * L.nin
+        dout0 = [0] * L.nout
+        app = []
+        for up in case['updates']:
+            if up['cs']:
+                app.append('VN')
+                continue
+            app.append('(obs_apply sj_drdo sj_drdi [%s] [%s] %d %d %s %s %s %s %s %s)' % (
+                '; '.join(qd(L.vals(k, up, 0)) for k in keysof['drdo']),
+                '; '.join(qd(L.vals(k, up, 0)) for k in keysof['drdi']),
+                L.nout, L.nin, qd(case['v_out']), qd(case['v_in']), qd(case['w']), qd(case['r0']), qd(dout0), qd(din0)))
+        parts.append('(VL [%s])' % '; '.join(app))
         # matrix-free application of the raw sub-jacobians on (outputs ++ inputs after the internal transfer)
         rawkeys = [tuple(k) for k in aux['raw']]
         binds.append(('sj_raw', '[%s]' % '; '.join(L.subjac(k, 'raw') for k in rawkeys)))
